@@ -38,7 +38,7 @@ def sink_fn(facts, adt, m):
 
 def run(ctx):
     facts = ctx.facts
-    with ctx.rule("C10.COUNT", "match_count incremented on every path of matched(); has_match defined by it", floor=6, kind="PASS/TRUTH") as r:
+    with ctx.rule("C10.COUNT", "match_count incremented on every path of matched(); has_match defined by it", floor=7, kind="PASS/TRUTH") as r:
         for name, adt in SINKS.items():
             f = sink_fn(facts, adt, "matched")
             eb = ExprBuilder(f)
@@ -89,6 +89,27 @@ def run(ctx):
                 if any(x.k == "field" and x[3] == "match_count" for x in walk(e)) and \
                         not any(W.const_val(a) == 1 for a in (e[2], e[3])):
                     varadd.append(bb)
+        # whatever is added for a delivered match is at least 1: matched() is only called because there is a match; that the
+        # printer's own re-search does not find it again (an empty match at the end of an unterminated last line) must not turn
+        # the file into one without matches for -q / -l / -c / --files-without-match while the standard printer shows the line
+        zero = []
+        for bb, j, st in f.stmts():
+            if st["k"] == "assign" and st["rv"]["k"] == "bin" and st["rv"]["op"] in ("Add", "AddWithOverflow"):
+                e = eb.rvalue(st["rv"])
+                if any(x.k == "field" and x[3] == "match_count" for x in walk(e)):
+                    amt = e[3] if any(x.k == "field" and x[3] == "match_count" for x in walk(e[2])) else e[2]
+                    if W.const_val(amt) == 1:
+                        continue
+                    if any(is_call(x, "core::cmp::max", "core::cmp::Ord::max") and
+                           any(W.const_val(a) == 1 for a in x[3]) for x in walk(amt)):
+                        continue
+                    zero.append(bb)
+        if zero:
+            r.bad("summary|at-least-one", "SummarySink::matched adds the number of matches its own re-search finds, which can be 0 "
+                  "for a match the searcher delivered: `printf ' ' > f; rg -U -q '$' f` exits 1 although `rg -U '$' f` prints the "
+                  "line", fn=f, construct="summary-count")
+        else:
+            r.ok("summary|at-least-one", "every delivered match adds at least 1 to match_count", fn=f)
         if not varadd:
             r.ok("summary|invert", "no per-match addition to match_count", fn=f, nontrivial=False)
         elif inv and not guarded(f, varadd, inv, False):
